@@ -91,6 +91,17 @@ Theorem C10_pressure_response_stationary : forall (U : Units R) (T P1 P2 : R) (p
 Proof. exact pressure_response_stationary. Qed.
 Print Assumptions C10_pressure_response_stationary.
 
+(* "enthalpy strictly increases with T" and "heat capacity is positive" are the same clause for the implementation's heat
+   capacity (regenerated from LTE.calculate_heat_capacity, enthalpy oracle H): it is positive exactly when the enthalpy at
+   T(1+d) exceeds the enthalpy at T(1-d); so a strictly increasing enthalpy gives a positive heat capacity at every T, d > 0 *)
+Theorem C10_heat_capacity_positive_iff_enthalpy_rises : forall (H : R -> R) (T d : R), 0 < T -> 0 < d ->
+  (0 < heat_capacity RNum H T d <-> H (T * (1 - d)) < H (T * (1 + d))).
+Proof. exact heat_capacity_pos_iff. Qed.
+Theorem C10_heat_capacity_positive_of_increasing_enthalpy : forall (H : R -> R) (T d : R), 0 < T -> 0 < d ->
+  (forall x y, x < y -> H x < H y) -> 0 < heat_capacity RNum H T d.
+Proof. exact heat_capacity_pos_of_increasing. Qed.
+Print Assumptions C10_heat_capacity_positive_iff_enthalpy_rises.
+
 (* non-vacuity: a two-level atom meets thermo_ok; the closed-form hypotheses have a solution (S = 1: c0 = 1, ce = 1, n = 3) *)
 Example C10_hypotheses_satisfiable :
   thermo_ok (mkSpecies R KMono 1 [] 1 0%Z 10 0 [(0, 0); (1, 5)] 0 0 0 0 false [] [] 0 0 None None []) 1 /\
